@@ -329,8 +329,33 @@ def c05(tier, seed):
                          min_distinct=100, t_start=t0)
 
 
+def c20(tier, seed):
+    t0 = time.time()
+    res = driver.RunResult()
+    q = tier == "quick"
+    pipegen_step(res, "C20", tier, seed, "plain20-O0", 16 if q else 1, 250 if q else 4000, enumerate_k=False)
+    if not res.harness_error and not q:
+        pipegen_step(res, "C20", tier, seed, "plain20", 3, 1500, enumerate_k=False)
+        pipegen_step(res, "C20", tier, seed, "plain17", 3, 1500, enumerate_k=False)
+    for variant, n in (("plain20", 6000 if q else 200000), ("plain20-O0", 0 if q else 100000), ("plain17", 3000 if q else 100000)):
+        if res.harness_error or n == 0:
+            continue
+        driver.run_family(res, "C20", "fam_alloc", variant, n, seed, tier)
+    return driver.finish("C20", tier, seed, "exploration", res,
+                         PIPEGEN_RULE + "C20: allocations (global operator new calls between two program points of a single-threaded "
+                         "run) of every generated pipeline must not exceed its number of steps, inner futures/tasks created by callbacks "
+                         "included. fam_alloc: each combinator x policy x form is measured for n = 1,2,3,4,8,16,33,64 inputs (static "
+                         "forms 2,3,4,6) and must give the same count for every n >= 2 (and <= 8); Wait/WaitFor/WaitUntil (variadic "
+                         "n<=4, iterator n<=64; ready, completed by another thread during the wait, timing out), Future::Get, Strand "
+                         "submission of existing jobs and co_await of futures / On(e) must give 0.",
+                         ["instrumentation is allocation-free (intrusive executors, fixed logs)", "-O0 counts are an upper bound (no allocation elision)",
+                          "std::make_exception_ptr / throw allocate through malloc, not operator new, and are not counted"],
+                         min_distinct=100, t_start=t0)
+
+
 PLANS = {
     "C01": c01,
+    "C20": c20,
     "C02": c02,
     "C05": c05,
     "C12": c12,
